@@ -22,8 +22,18 @@ static void contract(ExtractionState &es, int kind) {
   es.tok_pos += adv;
   if (nondet_bool()) es.encountered_errors.push_back({Theo::ParseError::Type::MACRO_EXTRACT_EXPECT, "e", "m", 1});
   if ((kind == K_D || kind == K_MD) && nondet_bool()) es.incomplete_macros.pop_back();
-  if (kind == K_S) { if (nondet_bool()) { Token t; t.t = Token::ID; t.text = "x"; t.file = "m"; t.line = 1; es.output.push_back(t); } Token e; e.t = Token::T_EOF; e.text = "EOF"; e.file = "m"; e.line = 1; es.output.push_back(e); if (nondet_bool()) { MacroDefinition md; es.incomplete_macros.push_back(md); } }
+  if (kind == K_S) { if (nondet_bool()) { Token t; t.t = Token::ID; t.text = "x"; t.file = "m"; t.line = 1; es.output.push_back(t); } Token e; e.t = Token::T_EOF; e.text = "EOF"; e.file = "m"; e.line = 1; es.output.push_back(e); if (nondet_bool()) {
+      // a finished macro with a symbolic one-token body ($d, #d or an identifier) over 0..1 slots: the tail of extract_macros validates its insertion indices
+      MacroDefinition md; md.priority = 0;
+      Token b; int bk = nondet_int(); ASSUME(bk == Token::INSERTION || bk == Token::TEMP_VAL || bk == Token::ID); b.t = (Token::Type)bk;
+      int dg = nondet_int(); ASSUME(dg >= 0 && dg <= 9); char tx[3] = {bk == Token::INSERTION ? '$' : (bk == Token::TEMP_VAL ? '#' : 'x'), (char)('0' + dg), 0};
+      b.text = tx; b.file = "m"; b.line = 1; md.replacement.push_back(b);
+      if (nondet_bool()) md.template_token_indices.push_back(0);
+      es.incomplete_macros.push_back(md);
+    } }
 }
+// environment: strtol by contract only (any value; the literal obligations of C20 use the exact model) - the error path of strToInt must be safe for every value
+extern "C" long stub_ex_strtol(const char *s, char **end, int base) { long v; *(int *)&v = nondet_int(); ((int *)&v)[1] = nondet_int(); return v; }
 static bool called_with_empty_stack;
 extern "C" {
 void stub_exS(ExtractionState &es) { contract(es, K_S); }
